@@ -33,7 +33,7 @@ class Harness:
 
     def __init__(self, crate, name, what, tier="quick", cap=300, mem_gb=12, stubbing=False,
                  unwindset=None, mode="pass", allowed_fail=None, covers_unsat=None, bounds="",
-                 functions=None, assumptions=None, extra=None):
+                 functions=None, assumptions=None, extra=None, features=None, may_unsat=None):
         self.crate = crate
         self.name = name
         self.what = what            # one line: what is decided
@@ -49,6 +49,8 @@ class Harness:
         self.functions = functions or []
         self.assumptions = assumptions or []
         self.extra = extra or []
+        self.features = features or []      # cargo features of the harness crate (e.g. "big")
+        self.may_unsat = may_unsat or []    # cover descriptions that are informative only
 
 
 def crate_dir(crate):
@@ -90,15 +92,18 @@ def stage_crate(crate):
     return _staged[crate]
 
 
-def target_dir(crate):
+def target_dir(crate, features=()):
     tag = "" if REPO == "/repo" else "-" + hashlib.sha1(REPO.encode()).hexdigest()[:10]
-    return os.path.join(BUILD, "target-" + crate + tag)
+    ftag = "".join("-" + f for f in sorted(features))
+    return os.path.join(BUILD, "target-" + crate + ftag + tag)
 
 
-def build_crate(crate, log):
+def build_crate(crate, log, features=()):
     """cargo kani --only-codegen: re-encodes /repo's current working tree for every harness."""
     t0 = time.time()
-    cmd = ["cargo", "kani", "--target-dir", target_dir(crate), "--only-codegen"]
+    cmd = ["cargo", "kani", "--target-dir", target_dir(crate, features), "--only-codegen"]
+    if features:
+        cmd += ["--features", ",".join(features)]
     if crate_uses_stubbing(crate):
         cmd += ["-Z", "stubbing"]
     with open(log, "w") as lf:
@@ -174,7 +179,9 @@ def run_harness(h, logdir, playback=False):
     """Run one harness under ulimit -v and timeout; returns a result dict."""
     os.makedirs(logdir, exist_ok=True)
     log = os.path.join(logdir, "%s.%s.log" % (h.crate, h.name))
-    cmd = ["cargo", "kani", "--target-dir", target_dir(h.crate), "--harness", h.name]
+    cmd = ["cargo", "kani", "--target-dir", target_dir(h.crate, h.features), "--harness", "proofs::" + h.name, "--exact"]
+    if h.features:
+        cmd += ["--features", ",".join(h.features)]
     z = []
     if h.stubbing or crate_uses_stubbing(h.crate):
         z += ["-Z", "stubbing"]
@@ -264,6 +271,7 @@ def classify(h, r):
             r["failed_checks"] = []
         return
     if r["verdict"] == "SUCCESSFUL" and not failed:
+        r["covers_unsat"] = [d for d in r["covers_unsat"] if not any(m in d for m in h.may_unsat)]
         if r["covers_unsat"]:
             r["outcome"], r["reason"] = "inconclusive", "vacuity witness not satisfied: " + "; ".join(r["covers_unsat"])
         else:
@@ -308,7 +316,7 @@ def playback_test(h, r, prop):
     """Re-run the failing harness with concrete playback, put the generated unit test into a
     scratch copy of the harness crate and execute it natively (dev and release)."""
     out = {"attempted": True}
-    h2 = Harness(h.crate, h.name, h.what, cap=h.cap, mem_gb=h.mem_gb, stubbing=h.stubbing, unwindset=h.unwindset, extra=h.extra)
+    h2 = Harness(h.crate, h.name, h.what, cap=h.cap, mem_gb=h.mem_gb, stubbing=h.stubbing, unwindset=h.unwindset, extra=h.extra, features=h.features)
     r2 = run_harness(h2, os.path.join(LOGS, "playback"), playback=True)
     text = open(r2["log"], errors="replace").read()
     tests = []
@@ -341,20 +349,24 @@ def playback_test(h, r, prop):
                 s2 = s2.replace('"../rabuf_model"', '"' + os.path.join(os.path.dirname(src), "rabuf_model") + '"')
                 if s2 != s:
                     open(p, "w").write(s2)
-    # insert the tests right after the harness function's module start: find `mod proofs {`
+    # put the generated tests into the module that defines the harnesses
+    prp = os.path.join(scratch, "src", "proofs.rs")
     libp = os.path.join(scratch, "src", "lib.rs")
-    s = open(libp).read()
-    # put into the module that defines the harness
-    idx = s.find("fn %s(" % h.name)
-    mstart = s.rfind("mod proofs", 0, idx)
-    brace = s.find("{", mstart)
-    s = s[:brace + 1] + "\n" + code + "\n" + s[brace + 1:]
-    open(libp, "w").write(s)
+    if os.path.exists(prp):
+        open(prp, "a").write("\n" + code + "\n")
+    else:
+        s = open(libp).read()
+        mstart = s.find("mod proofs")
+        brace = s.find("{", mstart)
+        s = s[:brace + 1] + "\n" + code + "\n" + s[brace + 1:]
+        open(libp, "w").write(s)
     results = {}
     for prof in ["dev", "release-like"]:
         full = ["cargo", "kani", "playback", "-Z", "concrete-playback"]
         if h.stubbing or crate_uses_stubbing(h.crate):
             full += ["-Z", "stubbing"]
+        if h.features:
+            full += ["--features", ",".join(h.features)]
         full += ["--", names[0]]
         e = env()
         e["CARGO_TARGET_DIR"] = os.path.join(BUILD, "replay-target-" + h.crate + "-" + prof)
@@ -405,17 +417,24 @@ def run_property(prop, spec, tier, jobs=None):
     os.makedirs(LOGS, exist_ok=True)
     os.makedirs(EVID, exist_ok=True)
     logdir = os.path.join(LOGS, prop + "-" + tier)
-    crates = sorted(set(h.crate for h in hs))
+    crates = sorted(set((h.crate, tuple(sorted(h.features))) for h in hs))
     for h in hs:
         if h.stubbing:
             _stub_crates.add(h.crate)
     build_info = {}
     inconclusive = []
-    for c in crates:
-        ok, dt = build_crate(c, os.path.join(LOGS, "build-%s-%s.log" % (c, prop)))
-        build_info[c] = {"ok": ok, "wall_s": round(dt, 1)}
-        if not ok:
-            inconclusive.append("build of harness crate '%s' against %s failed (see %s)" % (c, REPO, os.path.join(LOGS, "build-%s-%s.log" % (c, prop))))
+
+    def _b(cf):
+        c, feats = cf
+        tag = c + "".join("-" + f for f in feats)
+        blog = os.path.join(LOGS, "build-%s-%s.log" % (tag, prop))
+        ok, dt = build_crate(c, blog, feats)
+        return tag, ok, dt, blog
+    with cf.ThreadPoolExecutor(max_workers=4) as ex:
+        for tag, ok, dt, blog in ex.map(_b, crates):
+            build_info[tag] = {"ok": ok, "wall_s": round(dt, 1)}
+            if not ok:
+                inconclusive.append("build of harness crate '%s' against %s failed (see %s)" % (tag, REPO, blog))
     results = []
     if not inconclusive:
         jobs = jobs or int(os.environ.get("VERIF_JOBS", "8"))
